@@ -83,6 +83,7 @@ func historyAlphabet(sig string, thorough bool) []Letter {
 		add(Letter{Sig: sig, Ramp: &Ramp{Kind: "names", N: 130, Uses: 1, Base: 0}})
 		add(one(sig, 1, 1, 26, 26, 26))      // uniform groups: stale encoder state between batches shows up when repeated
 		add(one(sig, 1, 1, 0, 12, 0, 8, 23)) // records without and with related data mixed (null ids between ids)
+		add(one(sig, 9, 8, 27))              // every attribute of every map is dropped by the encoder
 		if thorough {
 			add(Letter{Sig: sig, Ramp: &Ramp{Kind: "names", N: 130, Uses: 5, Base: 1000}})
 			add(Letter{Sig: sig, Ramp: &Ramp{Kind: "attrs", N: 130, Uses: 1, Base: 2000}})
@@ -104,6 +105,7 @@ func historyAlphabet(sig string, thorough bool) []Letter {
 		add(Letter{Sig: sig, Ramp: &Ramp{Kind: "bodies", N: 130, Uses: 1, Base: 0}})
 		add(one(sig, 1, 1, 22, 22, 22))
 		add(one(sig, 1, 1, 0, 19, 2, 15, 23))
+		add(one(sig, 9, 8, 24))
 		if thorough {
 			add(Letter{Sig: sig, Ramp: &Ramp{Kind: "bodies", N: 130, Uses: 5, Base: 1000}})
 			add(Letter{Sig: sig, Ramp: &Ramp{Kind: "attrs", N: 130, Uses: 1, Base: 2000}})
@@ -125,6 +127,7 @@ func historyAlphabet(sig string, thorough bool) []Letter {
 		add(Letter{Sig: sig, Ramp: &Ramp{Kind: "names", N: 130, Uses: 1, Base: 0}})
 		add(one(sig, 1, 1, 40, 41, 40))
 		add(one(sig, 1, 1, 42, 43, 44))
+		add(one(sig, 9, 8, 45))
 		if thorough {
 			add(Letter{Sig: sig, Ramp: &Ramp{Kind: "attrs", N: 130, Uses: 1, Base: 2000}})
 			add(Letter{Sig: sig, Ramp: &Ramp{Kind: "units", N: 130, Uses: 1, Base: 3000}})
@@ -338,7 +341,12 @@ func dictConfigs() []Options {
 // with a high-reuse batch, so u8-limited columns cross 255 in the overflow
 // and in the reset regime.
 func rampHistories(sig string, n, depth int, thorough bool) [][]Letter {
-	rl := rampLetters(sig, n)
+	var rl []Letter
+	for _, l := range rampLetters(sig, n) {
+		if l.Ramp.N*l.Ramp.Uses <= 65000 { // stay within the 16-bit id width (domain of the round trip)
+			rl = append(rl, l)
+		}
+	}
 	reuse := groupLetters(sig)[0]
 	alpha := append(append([]Letter{}, rl...), reuse)
 	if !thorough {
@@ -428,7 +436,7 @@ func optionsPlan(tier string) []Unit {
 			for _, thr := range []float64{0, 0.3, 1e18} {
 				o := DefaultOptions()
 				o.Reset = thr
-				for _, h := range rampHistories(sig, 30000, 3, false)[:4] {
+				for _, h := range rampHistories(sig, 30000, 3, false) {
 					units = append(units, Unit{Opts: o, Mon: mon, Tag: "ramp30k-" + sig, History: h})
 				}
 			}
@@ -531,12 +539,22 @@ func framingPlan(tier string) []Unit {
 			a := historyAlphabet(sig, false)
 			mixed = append(mixed, a[1], a[2], a[5])
 		}
+		mixed = append(mixed, Letter{Op: "resetstats"})
 		depth := 3
 		if thorough {
 			depth = 4
 		}
 		for _, h := range histories(mixed, depth) {
 			units = append(units, Unit{Opts: def, Mon: mon, Tag: "mixed", History: h})
+		}
+		// per signal: the statistics call between any two batches of the history alphabet
+		for _, sig := range sigs() {
+			a := historyAlphabet(sig, false)
+			for _, x := range a {
+				for _, y := range a {
+					units = append(units, Unit{Opts: def, Mon: mon, Tag: "statsreset-" + sig, History: fixRamps([]Letter{x, {Op: "resetstats"}, y})})
+				}
+			}
 		}
 		// dictionary resets under an unchanged schema, overflows, upgrades
 		for _, sig := range sigs() {
@@ -592,7 +610,10 @@ func dictPlan(tier string) []Unit {
 			for _, thr := range []float64{0, 0.3, 1e18} {
 				o := DefaultOptions()
 				o.Reset = thr
-				for _, l := range rampLetters(sig, 30000)[:3] {
+				for _, l := range rampLetters(sig, 30000) {
+					if l.Ramp.N*l.Ramp.Uses > 65000 {
+						continue
+					}
 					units = append(units, Unit{Opts: o, Mon: mon, Tag: "ramp30k-" + sig, History: fixRamps([]Letter{l, l, l})})
 				}
 			}
